@@ -178,6 +178,10 @@ impl Ev {
             .insert(member.to_string());
     }
 
+    pub fn sets_contains(&self, set: &str, member: &str) -> bool {
+        self.sets.lock().unwrap().get(set).map(|s| s.contains(member)).unwrap_or(false)
+    }
+
     pub fn set_len(&self, set: &str) -> usize {
         self.sets.lock().unwrap().get(set).map(|s| s.len()).unwrap_or(0)
     }
